@@ -2,6 +2,7 @@ package props
 
 import (
 	"fmt"
+	"runtime"
 	"testing"
 
 	gocvss20 "github.com/pandatix/go-cvss/20"
@@ -32,6 +33,34 @@ func allocs(f func(), budgetMax float64) float64 {
 	best := testing.AllocsPerRun(20, f)
 	for i := 0; i < 3 && best > budgetMax; i++ {
 		if a := testing.AllocsPerRun(20, f); a < best {
+			best = a
+		}
+	}
+	return best
+}
+
+// allocsAfter measures the allocations of f alone when every call of f is
+// preceded by a call of pre (whose own allocations are not counted).
+func allocsAfter(pre, f func()) float64 {
+	defer runtime.GOMAXPROCS(runtime.GOMAXPROCS(1))
+	measure := func() float64 {
+		var m0, m1 runtime.MemStats
+		pre()
+		f()
+		var sum uint64
+		const runs = 20
+		for i := 0; i < runs; i++ {
+			pre()
+			runtime.ReadMemStats(&m0)
+			f()
+			runtime.ReadMemStats(&m1)
+			sum += m1.Mallocs - m0.Mallocs
+		}
+		return float64(sum / runs)
+	}
+	best := measure()
+	for i := 0; i < 3 && best > 1; i++ {
+		if a := measure(); a < best {
 			best = a
 		}
 	}
@@ -100,6 +129,7 @@ type AllocCase struct {
 	V      gen.Valid `json:"vector"`
 	Metric string    `json:"metric"` // the metric used for Get/Set
 	Bad    string    `json:"bad_value"`
+	BadVec gen.BStr  `json:"rejected_vector"` // a near-miss of V that the parser must reject; parsed between successful parses
 }
 
 func checkAllocs(c AllocCase) error {
@@ -115,6 +145,13 @@ func checkAllocs(c AllocCase) error {
 	}
 	if a := allocs(func() { api.parse(s) }, 1); a > 1 {
 		return fmt.Errorf("v%s ParseVector(%q) performs %v allocations per call, budget is at most 1", v.Name, s, a)
+	}
+	// a rejected parse in between must not make the next successful parse more expensive
+	// (a scratch buffer that is not returned on one error path shows here)
+	if bad := string(c.BadVec); bad != "" && !spec.Member(v, bad) && !api.parse(bad) {
+		if a := allocsAfter(func() { api.parse(bad) }, func() { api.parse(s) }); a > 1 {
+			return fmt.Errorf("v%s ParseVector(%q) performs %v allocations per call when each call follows the rejected ParseVector(%q); budget is at most 1", v.Name, s, a, bad)
+		}
 	}
 	api.reparse(s)
 	if a := allocs(func() { sinkStr = api.obj.Vector() }, 1); a != 1 {
@@ -223,6 +260,9 @@ func TestC17(t *testing.T) {
 			c.Metric = v.Metrics[rapid.IntRange(0, len(v.Metrics)-1).Draw(rt, "metric")].Abv
 			bad := append([]string{"", "ZZ", "x", "QQQQQQQQQQQQQQQQQQQQQQQQQQQQQQQQQQQQQQQQQQQQQQQQQQQQQQQQQQQQQQQQQ"}, gen.AllVals()...)
 			c.Bad = bad[rapid.IntRange(0, len(bad)-1).Draw(rt, "bad")]
+			if bv, _ := gen.Mutate(rt, c.V); !spec.Member(v, bv) {
+				c.BadVec = gen.BStr(bv)
+			}
 			nopt := 0
 			for _, abv := range c.V.Written {
 				if !v.Metric(abv).Mandatory {
